@@ -242,3 +242,17 @@ declare align 8 i8* @h()
 declare "retattr" i32 @j()
 ;;; ATOM func/return-attr-pair
 declare "k"="v" noalias nonnull i8* @k()
+;;; ATOM func/strings-with-escapes
+$"c\09d" = comdat any
+@g = global i32 0, section "s\09e\0Ac\7F\FFt", partition "p\01q", comdat($"c\09d")
+@h = global [5 x i8] c"a\09\22\5C\00"
+define void @f() section "a\09b\0A\7F\FF" partition "p\09q" gc "g\09c" {
+  ret void
+}
+declare void @d() "k\09ey"="v\0Aal" "k2\FF" section "x\22y\5Cz"
+define void @"n\09m"(i32 "p\09k"="p\22v" %a) {
+  call void asm sideeffect "nop\09\0A", "~{dirflag}\09"()
+  ret void
+}
+!named.x = !{!0}
+!0 = !{!"m\09d\22\5C\00\FF"}
